@@ -1123,6 +1123,26 @@ def option_combinators(fn):
                     m[key] = x[key]
             n += 1
             return m
+        elif name == "zip" and len(args) == 1:      # (receiver, then argument: the tuple evaluates them in the same order)
+            # `a.zip(b)`  ->  `match (a, b) { (Some(x), Some(y)) => Some((x, y)), _ => None }`
+            _UW[0] += 2
+            h1, h2 = 9700000 + _UW[0] - 1, 9700000 + _UW[0]
+            line = x.get("line")
+            b1 = {"k": "bind", "name": "_z%d" % h1, "hid": h1, "mode": "BindingMode(No, Not)", "t": None}
+            b2 = {"k": "bind", "name": "_z%d" % h2, "hid": h2, "mode": "BindingMode(No, Not)", "t": None}
+            some = lambda q: {"k": "tstruct", "path": "std::prelude::v1::Some", "ps": [q]}
+            pair = {"k": "tup", "xs": [{"k": "local", "name": b1["name"], "hid": h1, "line": line}, {"k": "local", "name": b2["name"], "hid": h2, "line": line}], "line": line}
+            val = {"k": "call", "callee": "std::prelude::v1::Some", "f": {"k": "path", "def": "std::prelude::v1::Some", "line": line}, "args": [pair], "line": line}
+            m = {"k": "match", "scrut": {"k": "tup", "xs": [x["recv"], args[0]], "line": line}, "src": "Normal", "line": line, "from_option_combinator": name,
+                 "arms": [{"pat": {"k": "tuple", "ps": [some(b1), some(b2)]}, "guard": None, "body": val},
+                          {"pat": {"k": "wild"}, "guard": None, "body": {"k": "path", "def": "std::prelude::v1::None", "line": line}}]}
+            for key in ("t", "ta", "id"):
+                if key in x:
+                    m[key] = x[key]
+                    if key != "id":
+                        val[key] = x[key]
+            n += 1
+            return m
         elif name == "unwrap_or_else" and len(args) == 1:
             cl0 = _unblk(args[0])
             if cl0 is None or cl0.get("k") != "closure" or cl0.get("params") or any(y.get("k") == "ret" for y in _walk(cl0["body"])):
